@@ -75,13 +75,14 @@ class Lane:
     model_cfg(spec, cfg) -> model configuration dict `m` (JSON-able) or None if the DUT has no model
     proj_path            -> 'module:function' (spec, Stepper) -> {register name: Signal | Memory | [Signals]}"""
     def __init__(self, name, conf_module, model_cfg, proj_path, clauses=("OutputsAgree", "NextStateAgrees", "ResetAgrees"),
-                 m_module=None):
+                 m_module=None, include=()):
         self.name = name
         self.conf_module = conf_module
         self.model_cfg = model_cfg
         self.proj_path = proj_path
         self.clauses = list(clauses)
         self.m_module = m_module
+        self.include = tuple(include)     # further spec directories (a model that INSTANCEs a model of another family)
 
 
 def graph_cases(gl, lane, max_edges_per_dut=400000):
@@ -136,7 +137,7 @@ def conformance(lane, duts, timeout=1800, workers=8, heap="8g", log=print):
                           f, separators=(",", ":"))
             cfg = "INIT Init\nNEXT Next\nCHECK_DEADLOCK FALSE\n" + "".join("INVARIANT %s\n" % c for c in lane.clauses)
             res = tlcmod.run(lane.conf_module, cfg, env={"CASES": path}, timeout=timeout, scratch=scratch,
-                             workers=workers, heap=heap)
+                             workers=workers, heap=heap, include=getattr(lane, "include", ()))
             if res.errors:
                 raise MachineryError("TLC failed in L2 conformance (%s): %s\n%s" % (lane.name, " | ".join(res.errors[:4]), res.out[-1500:]))
             if not res.violated:
@@ -197,7 +198,7 @@ def report_drifts(report, lane, drifts):
 
 # ------------------------------------------------------------------------------ M-mode
 def mmode(module, mcfgs, invariants, properties, spec_name="Spec", timeout=1800, workers=16, heap="12g",
-          constraint=None, alias="Alias", envname="MCFG"):
+          constraint=None, alias="Alias", envname="MCFG", include=()):
     """pure TLC run of  model x Env x L1 monitor  over the configurations `mcfgs` (list of JSON-able dicts)."""
     scratch = tempfile.mkdtemp(prefix="verif-m-", dir=os.environ.get("VERIF_SCRATCH", "/var/tmp"))
     try:
@@ -212,7 +213,7 @@ def mmode(module, mcfgs, invariants, properties, spec_name="Spec", timeout=1800,
         if alias:
             lines.append("ALIAS %s" % alias)
         res = tlcmod.run(module, "\n".join(lines) + "\n", env={envname: path}, timeout=timeout, scratch=scratch,
-                         workers=workers, heap=heap)
+                         workers=workers, heap=heap, include=include)
         if res.errors:
             raise MachineryError("TLC failed in M-mode (%s): %s\n%s" % (module, " | ".join(res.errors[:4]), res.out[-1500:]))
         return res
